@@ -696,6 +696,67 @@ func (s *sim) checkAccessors(box *stateBox, where string) {
 			s.res.Stat("setter_checks", 2)
 		}
 	}
+	// setters take values: what the caller does with its own struct afterwards must not reach the state
+	{
+		c, err := st.CopyState()
+		if err == nil {
+			h := &common.BeaconBlockHeader{Slot: 77, ProposerIndex: 5, ParentRoot: fnvRoot("alias", 1), StateRoot: fnvRoot("alias", 2), BodyRoot: fnvRoot("alias", 3)}
+			stored := *h
+			if err := c.SetLatestBlockHeader(h); err == nil {
+				r1 := c.HashTreeRoot(tree.GetHashFn())
+				h.StateRoot = fnvRoot("alias", 4) // the caller goes on using its struct
+				h.ParentRoot[0] ^= 0xff
+				got, _ := c.LatestBlockHeader()
+				r2 := c.HashTreeRoot(tree.GetHashFn())
+				re, derr := decodeState(s.w.spec, forkIndexOfState(c), serializeState(c))
+				s.res.Stat("setter_checks", 1)
+				if got == nil || *got != stored || r1 != r2 || derr != nil || re.HashTreeRoot(tree.GetHashFn()) != r1 {
+					s.viol("C15", "setter-aliases-caller-memory/LatestBlockHeader", fmt.Sprintf("%s (%s): after SetLatestBlockHeader(h) the caller changed its own *h: the getter now returns %+v (stored %+v); root before %s, after %s", where, forkName(st), got, stored, r1, r2))
+					return
+				}
+			}
+		}
+	}
+	if forkIndexOfState(st) >= 2 {
+		c, err := st.CopyState()
+		if err == nil {
+			var mutate func()
+			var serr error
+			set := false
+			switch cs := c.(type) {
+			case interface {
+				SetLatestExecutionPayloadHeader(h *deneb.ExecutionPayloadHeader) error
+			}:
+				h := &deneb.ExecutionPayloadHeader{ParentHash: fnvRoot("ealias", 1), StateRoot: fnvRoot("ealias", 2), BlockHash: fnvRoot("ealias", 3), Timestamp: 99}
+				serr, set = cs.SetLatestExecutionPayloadHeader(h), true
+				mutate = func() { h.BlockHash = fnvRoot("ealias", 4); h.ParentHash[0] ^= 0xff }
+			case interface {
+				SetLatestExecutionPayloadHeader(h *capella.ExecutionPayloadHeader) error
+			}:
+				h := &capella.ExecutionPayloadHeader{ParentHash: fnvRoot("ealias", 1), StateRoot: fnvRoot("ealias", 2), BlockHash: fnvRoot("ealias", 3), Timestamp: 99}
+				serr, set = cs.SetLatestExecutionPayloadHeader(h), true
+				mutate = func() { h.BlockHash = fnvRoot("ealias", 4); h.ParentHash[0] ^= 0xff }
+			case interface {
+				SetLatestExecutionPayloadHeader(h *bellatrix.ExecutionPayloadHeader) error
+			}:
+				h := &bellatrix.ExecutionPayloadHeader{ParentHash: fnvRoot("ealias", 1), StateRoot: fnvRoot("ealias", 2), BlockHash: fnvRoot("ealias", 3), Timestamp: 99}
+				serr, set = cs.SetLatestExecutionPayloadHeader(h), true
+				mutate = func() { h.BlockHash = fnvRoot("ealias", 4); h.ParentHash[0] ^= 0xff }
+			}
+			if set && serr == nil {
+				r1 := c.HashTreeRoot(tree.GetHashFn())
+				b1 := serializeState(c)
+				mutate()
+				r2 := c.HashTreeRoot(tree.GetHashFn())
+				b2 := serializeState(c)
+				s.res.Stat("setter_checks", 1)
+				if r1 != r2 || !bytes.Equal(b1, b2) {
+					s.viol("C15", "setter-aliases-caller-memory/LatestExecutionPayloadHeader", fmt.Sprintf("%s (%s): after SetLatestExecutionPayloadHeader(h) the caller changed its own *h and the state changed with it (bytes equal: %v, root equal: %v)", where, forkName(st), bytes.Equal(b1, b2), r1 == r2))
+					return
+				}
+			}
+		}
+	}
 	for _, set := range setters {
 		c, err := st.CopyState()
 		if err != nil {
